@@ -151,6 +151,26 @@ def __call__(self, *args, **kwargs):
 '''
 
 
+# after 067b203 (a KeyError raised by the handler itself is no longer taken for a deleted symbol)
+_WRAP_CALL_SRC2 = '''
+def __call__(self, *args, **kwargs):
+    if self._sym is not None:
+        try:
+            current = self.klong._context[self._sym]
+        except KeyError:
+            current = None
+        if isinstance(current, KGFn) and not isinstance(current, KGCall):
+            if len(args) != current.arity:
+                raise RuntimeError(f"Klong function called with {len(args)} but expected {current.arity}")
+            fn_args = [np.asarray(x) if isinstance(x, list) else x for x in args]
+            return self.klong.call(KGCall(current.a, [*fn_args], current.arity))
+    if len(args) != self.fn.arity:
+        raise RuntimeError(f"Klong function called with {len(args)} but expected {self.fn.arity}")
+    fn_args = [np.asarray(x) if isinstance(x, list) else x for x in args]
+    return self.klong.call(KGCall(self.fn.a, [*fn_args], self.fn.arity))
+'''
+
+
 class _Alpha(ast.NodeTransformer):
     """rename every locally bound name (parameters, assigned names, inner defs, loop targets) to v0, v1, ... in source order"""
 
@@ -258,8 +278,9 @@ def read_flags():
     def wrapper_side():
         m = astlib.module("klongpy/types.py")
         cls = astlib.find_class(m, "KGFnWrapper")
-        for name, src in (("__init__", _WRAP_INIT_SRC), ("_find_symbol", _WRAP_FIND_SRC), ("__call__", _WRAP_CALL_SRC)):
-            if norm(astlib.find_func(cls, name)) != _norm_src(src):
+        for name, srcs in (("__init__", (_WRAP_INIT_SRC,)), ("_find_symbol", (_WRAP_FIND_SRC,)),
+                           ("__call__", (_WRAP_CALL_SRC, _WRAP_CALL_SRC2))):
+            if norm(astlib.find_func(cls, name)) not in [_norm_src(src) for src in srcs]:
                 raise ShapeError("KGFnWrapper.%s changed" % name)
         return True
 
